@@ -191,6 +191,9 @@ func classify(prop string, o *outcome) (nontrivial bool, feature uint64, classes
 	add(has("fresh-server-joins"), "fresh-server-joins")
 	add(anyPrefix(f, "log-read-error@"), "log-read-errors")
 	add(has("stale-installsnapshot-from-a-deposed-leader"), "stale-installsnapshot-from-a-deposed-leader")
+	add(has("client-call-during-a-slow-leadership-transfer"), "client-call-during-a-slow-leadership-transfer")
+	add(anyPrefix(f, "restore-refused:"), "restore-refused")
+	add(has("restore-refused:"+shortErr("leadership transfer in progress")), "restore-refused-during-transfer")
 	add(has("verify-while-a-snapshot-is-in-flight"), "verify-while-a-snapshot-is-in-flight")
 	add(has("acked-entry-applied-in-one-batch-behind-an-inherited-command"), "acked-entry-batched-behind-inherited-command")
 	add(has("apply-ok"), "apply-ok")
@@ -292,9 +295,19 @@ func runProfile(t *testing.T, prop, profile string) {
 		o.r.W.Mu.Unlock()
 		if tainted {
 			// a user Restore replaced a server's state without completing:
-			// excluded by construction, counted
+			// excluded by construction, counted - except for what is wrong
+			// with that very Restore (a refused call that took effect)
 			r.Class("excluded:restore-did-not-complete", 1)
-			return
+			kept := o.viol[:0:0]
+			for _, v := range o.viol {
+				if v.Sig == "C20/R5/restore-performed-during-a-leadership-transfer" {
+					kept = append(kept, v)
+				}
+			}
+			if len(kept) == 0 {
+				return
+			}
+			o.viol = kept
 		}
 		var fresh []sim.Violation
 		for _, v := range o.viol {
